@@ -193,6 +193,8 @@ def _clean(meta):
 # oracles: return None if the property holds on this case, or 'clause: explanation'
 
 def o_c01(meta, ans, ctx):
+    if meta.get('kind') == 'bigfile':
+        return o_bigfile(meta, ans)
     if meta.get('kind') != 'case' or meta['mut'] != '-':
         return None
     a = parse_case_answer(ans)
@@ -205,6 +207,8 @@ def o_c01(meta, ans, ctx):
 
 
 def o_c02(meta, ans, ctx):
+    if meta.get('kind') == 'bigfile':
+        return o_bigfile(meta, ans)
     if meta.get('kind') != 'case' or meta['mut'] != '-':
         return None
     a = parse_case_answer(ans)
@@ -318,6 +322,8 @@ def o_c10(meta, ans, ctx):
 
 
 def o_c11(meta, ans, ctx):
+    if meta.get('kind') == 'bigfile':
+        return o_bigfile(meta, ans)
     if meta.get('kind') == 'fload':
         p = ans.split(' ')
         if p[0] != 'fload' or len(p) < 2: return 'shape: ' + ans[:60]
@@ -529,6 +535,21 @@ class C09Spec(CaseSpec):
         return res
 
 
+def o_bigfile(meta, ans):
+    """very large files built by the harness: the whole stream must come back equal through every entry point; a strict
+    prefix must be refused with a read error by the full-copy entry points and must not become a value through mmap / ε-copy"""
+    p = ans.split(' ')
+    if p[0] != 'bigfile' or len(p) != 3: return 'shape: ' + ans[:60]
+    if meta.get('prefix') is None:
+        return None if p[1] == 'ok' else 'big: %s of a large stored value gives %s' % (meta['loader'], ' '.join(p[1:]))
+    l = meta['loader']
+    if l in ('dfull', 'full') and p[1:] != ['err', 'read']:
+        return 'big-prefix: %s of a strict prefix (%s) of a large stream gives %s instead of a read error' % (l, meta['prefix'], ' '.join(p[1:]))
+    if l in ('map', 'deps') and p[1] in ('ok', 'differs'):
+        return 'big-prefix: %s turned a strict prefix (%s) of a large stream into a value' % (l, meta['prefix'])
+    return None
+
+
 def o_c04(meta, ans, ctx):
     k = meta.get('kind')
     u = ctx['u']
@@ -559,6 +580,8 @@ def o_c04(meta, ans, ctx):
 
 
 def o_c08(meta, ans, ctx):
+    if meta.get('kind') == 'bigfile':
+        return o_bigfile(meta, ans)
     if meta.get('kind') != 'load':
         return None
     p = ans.split(' ')
@@ -604,7 +627,10 @@ def o_c18(meta, ans, ctx):
     hx, rows, extra = ps
     data = bytes.fromhex(hx)
     n = len(data)
-    plain = ctx.get('c18_plain', {}).get((meta['ti'], meta['val']))
+    base = meta.get('base')
+    if base is not None and extra.get('same') != 'true':
+        return 'same-bytes: after %d bytes, the recording writer wrote a different stream than the plain writer' % base
+    plain = ctx.get('c18_plain', {}).get((meta['ti'], meta['val'])) if base is None else None
     if plain is not None:
         mp = ctx.get('model_ans', '').split(' ')
         mask = mp[2] if len(mp) > 2 else ''
@@ -625,7 +651,8 @@ def o_c18(meta, ans, ctx):
         if r['field'] == 'PADDING' and any(data[r['offset']:r['offset'] + r['size']]): return 'padding-zero: a padding row covers non-zero bytes'
         if r['field'] != 'PADDING' and r['align'] > 1 and r['offset'] % r['align']: return 'zero-aligned: %s at %d, alignment %d' % (r['field'], r['offset'], r['align'])
     # pre-order reconstruction with tiling
-    stack = [{'d': 0, 'off': 0, 'size': n, 'cur': 0, 'kids': 0, 'field': ''}]
+    b0 = base or 0
+    stack = [{'d': 0, 'off': b0, 'size': n - b0, 'cur': b0, 'kids': 0, 'field': ''}]
     def close(node):
         if node['kids'] and node['cur'] != node['off'] + node['size']:
             return 'tile-end: the children of %s end at %d, the row at %d' % (node['field'] or 'the stream', node['cur'], node['off'] + node['size'])
@@ -744,6 +771,10 @@ def o_c16(meta, ans, ctx):
             if not same(toks.get('ES'), ev, mtoks.get('EV')): return 'enum-slice: an enum variant holding the slice differs from the one holding the vector'
             if toks.get('EI') != '-' and not same(toks.get('EI'), ev, mtoks.get('EV')): return 'enum-iter: an enum variant holding the iterator differs from the one holding the vector'
             if toks.get('EU') != toks.get('EUV'): return 'enum-unit: the unit variant of an enum parameterised by a slice differs from the one parameterised by a vector'
+        mv = toks.get('MV')
+        if mv is not None:
+            if not same(toks.get('MS'), mv, mtoks.get('MV')): return 'stamped-slice: a macro-stamped structure holding the slice differs from the one holding the vector'
+            if toks.get('MI') != '-' and not same(toks.get('MI'), mv, mtoks.get('MV')): return 'stamped-iter: a macro-stamped structure holding the iterator differs from the one holding the vector'
         if 'intact=true' not in ans: return 'intact: the source vector changed'
         return None
     if k == 'iter':
@@ -866,6 +897,14 @@ class C04Spec(ProbeSpec):
         return None
 
 
+class C07Spec(ProbeSpec):
+    prefix = 'c07_'
+
+
+class C15Spec(ProbeSpec):
+    prefix = 'c15_'
+
+
 class C05Spec(ProbeSpec):
     prefix = 'c05_'
 
@@ -898,6 +937,26 @@ class C17Spec(ProbeSpec):
 
     def judge_run(self, name, e, g):
         return self.judge_attempts(name, g, must_panic=(name != 'c17_ok'))
+
+    def run(self, prop, tier, seed, replay=None):
+        res = ProbeSpec.run(self, prop, tier, seed, replay)
+        # the run-time layer must stand in every build profile: the lying hand-written type again, optimized and without
+        # debug assertions (`cargo build --release`)
+        import probes
+        expect, got = probes.run_probe_bins('c17_lying_leaf', release=True)
+        for name in sorted(got):
+            g = got[name]
+            sig = {'op': 'probe-release', 'probe': name, 'outcome': 'ran' if g['compiled'] else 'rejected', 'type_shape': '', 'rust_type': ''}
+            detail = {'probe': name, 'profile': 'release', 'source': 'probes/src/bin/%s.rs' % name, 'output': g['stdout'][:1500], 'messages': g['messages'][:4]}
+            if not g['compiled']:
+                res['disagreements'].append((dict(sig, kind='probe-build'), detail))
+                continue
+            why = self.judge_attempts(name, g, must_panic=True)
+            if why:
+                detail['why'] = why + ' [release profile]'
+                res['failures'].append((dict(sig, clause=why.split(':')[0]), detail))
+            res['coverage'].setdefault('probe_results', []).append({'probe': name + ' (release profile)', 'path': expect[name]['path'], 'expected': 'runs', 'outcome': 'ran rc=%s' % g['rc'], 'codes': [], 'output': g['stdout'][:600]})
+        return res
 
     def judge_accepted(self, name, e, g):
         # rejected at compile time *or, failing that*, panics before writing any byte of the value
@@ -963,6 +1022,10 @@ def o_c05(meta, ans, ctx):
         pa, aa = split_generic_args(actual)
         ps, sa = split_generic_args(selfn)
         if pa != ps or len(aa) != len(sa): return 'eps-type-head: DeserType of %s is %s' % (selfn, actual)
+        if meta.get('const_first'):
+            # const arguments are printed first: bring both lists into the order (type arguments, const arguments)
+            k0 = meta.get('ncp', 0)
+            aa, sa = aa[k0:] + aa[:k0], sa[k0:] + sa[:k0]
         for i in range(len(sa)):
             changed = aa[i] != sa[i]
             if i >= meta['ntp']:
@@ -984,7 +1047,7 @@ SPECS = {
     'C05': C05Spec(o_c05, 'every derived type of the generated universe (definitions drawn from the grammar: named / tuple / unit structs, unit / tuple / struct variants, type / const / defaulted parameters, phantom parameters, bounds, where-clauses, zero / deep / no copy attribute, repr attributes, nesting of earlier definitions; several instantiations each): the program containing them must compile, the concrete DeserType (core::any::type_name) must be the documented substitution, the model derive of the definition must be the registered type, values round-trip in both modes; 7 accept programs for grammar features outside the generator (where-clause bounds, several bounds, defaulted parameters, visibilities, raw identifiers, doc comments, parameters passed to other derived types, unit / tuple structs) built and run.'),
     'C01': CaseSpec(o_c01, 'serialize each generated value, deserialize_full the bytes; generated types x boundary-biased values.'),
     'C02': CaseSpec(o_c02, 'serialize each generated value, deserialize_eps from a 128-aligned (and 64 mod 128) buffer and deserialize_full the same bytes.'),
-    'C07': CaseSpec(o_c07, 'layout of every zero-copy type; schema rows (real write_bytes/padding events) and byte counts for every generated value.'),
+    'C07': C07Spec(o_c07, 'layout of every zero-copy type; schema rows (real write_bytes/padding events) and byte counts for every generated value.'),
     'C10': CaseSpec(o_c10, 'every single-bit flip of the 29 fixed header bytes (all 232 for a quarter of the types in the quick tier, a sample of 48 for the others), the reversed cookie, minor/major/usize boundary values; both modes.'),
     'C11': CaseSpec(o_c11, 'every cut point k in [0,len) of the streams of generated values (streams up to 400 bytes in the quick tier); both modes; files cut at 8 fixed and 4 (16) random points loaded through load_full, mmap, load_mem, load_mmap.'),
     'C12': CaseSpec(o_c12, 'every base residue 0..127 (all for half of the types with aligned blocks in the quick tier, 16 residues for the rest) x generated values; block list taken from the real schema.'),
@@ -998,6 +1061,6 @@ SPECS = {
     'C14': CaseSpec(o_c14, '10 fragmentation patterns (1-byte, prime-sized, mixed, pseudo-random, with Interrupted, through BufReader) and failure (error or end of file) at positions k in [0,len) for generated values.'),
     'C16': CaseSpec(o_c16, 'for 13+ element types (zero-copy and deep, built-in and derived): the vector, the slice reference, the SerIter wrapper and a generic structure holding each, on empty and generated sequences; lying iterators for all (announced, actual) pairs <= 6 and larger ones.'),
     'C19': CaseSpec(o_c19, 'every history of length <= 3 (quick; <= 4 thorough) over an alphabet of 12 (14) operations on AlignedCursor<A16>, plus long random histories for A16/A32/A64; the same history on std::io::Cursor<Vec<u8>>; both models tied.'),
-    'C15': CaseSpec(o_c15, 'every tag position of every generated value (found through the real schema): byte tags set to 11 boundary values or all 256, enum tag words set to boundary values; both modes.'),
+    'C15': C15Spec(o_c15, 'every tag position of every generated value (found through the real schema): byte tags set to 11 boundary values or all 256, enum tag words set to boundary values; both modes.'),
 }
 SPECS['C06'].rule = SPECS['C06'].rule.replace('NCORPUS', str(_NCORPUS))
